@@ -286,10 +286,17 @@ def gen_tag(r, syntaxes):
     c = gen_color(r)
     q = r.random()
     val = f'"{c}"' if q < 0.8 else c
+    j = r.random()      # tag and attribute names are case-insensitive (html.parser lower-cases them)
+    if j < 0.08:
+      return f"<FONT COLOR={val}>", "</FONT>"
+    if j < 0.14:
+      return f"<Font Color={val}>", "</font>"
     return f"<font color={val}>", "</font>"
   syn = r.choice(syntaxes)
   if syn == "brace":
     return "{" + kind + "}", "{/" + kind + "}"
+  if r.random() < 0.12:
+    return f"<{kind.upper()}>", f"</{kind.upper() if r.random() < 0.7 else kind}>"
   return f"<{kind}>", f"</{kind}>"
 
 
